@@ -115,6 +115,11 @@ def gen_events(conv, rng, n_rand, wide):
             out = conv.scsi_int_to_ba(v, k)
             ev.append({"fn": "int_to_ba", "v": num(v), "k": k, "out": list(out)})
             ev.append({"fn": "ba_to_int", "ba": list(out), "out": num(conv.scsi_ba_to_int(out))})
+            # the caller owns what it got back: it extends and overwrites it, and asks again
+            if isinstance(out, bytearray):
+                out += b"\xEE\xEE"
+                out[0] ^= 0xFF
+                ev.append({"fn": "int_to_ba", "v": num(v), "k": k, "out": list(conv.scsi_int_to_ba(v, k))})
     for _ in range(40):
         ba = bytes(rng.getrandbits(8) for _ in range(rng.randint(0, 12)))
         ev.append({"fn": "ba_to_int", "ba": list(ba), "out": num(conv.scsi_ba_to_int(bytearray(ba)))})
